@@ -1,7 +1,7 @@
 (* C11 proofs. *)
 From Coq Require Import QArith.
 From stdpp Require Import strings gmap sets fin_sets.
-From CG Require Export Model.Sensitivity.
+From CG Require Export Model.Sensitivity Base.Compose.
 Open Scope string_scope.
 Open Scope nat_scope.
 
@@ -202,3 +202,347 @@ Section search.
   Theorem search_max : ∃ k, search solve w m = Ok k ∧ (∃ v, consistent T v ∧ cnt v = k) ∧ ∀ v, consistent T v → cnt v ≤ k.
   Proof. apply search_correct; [done|apply cnt_le]. Qed.
 End search.
+
+(* ================================================================================================ *)
+(* 3. evalc IS the consistent valuation of a closed acyclic circuit (the size-derived fuel suffices)  *)
+Section compact_rank.
+  Context (c : circuit) (rank : string → nat).
+  Hypothesis Hcl : closed c.
+  Hypothesis Hrank : ∀ n i f, c !! n = Some i → f ∈ n_fi i → rank f < rank n.
+  (* position of n among the nodes sorted by rank: still strictly monotone along edges, and below size c *)
+  Definition crank (n : string) : nat := size (filter (λ m, rank m < rank n) (dom c)).
+  Lemma crank_mono n i f : c !! n = Some i → f ∈ n_fi i → crank f < crank n.
+  Proof.
+    intros Hn Hf. pose proof (Hrank n i f Hn Hf) as Hlt. unfold crank. apply subset_size.
+    assert (f ∈ dom c) by (eapply Hcl; eauto).
+    split.
+    - intros m. rewrite !elem_of_filter. intros [? ?]. split; [lia|done].
+    - intros Hsub. specialize (Hsub f). rewrite !elem_of_filter in Hsub. destruct Hsub as [? _]; [done|lia].
+  Qed.
+  Lemma crank_bound n : n ∈ dom c → crank n < size c.
+  Proof.
+    intros Hn. rewrite <- size_dom. unfold crank. apply subset_size. split.
+    - intros m. rewrite elem_of_filter. tauto.
+    - intros Hsub. specialize (Hsub n Hn). rewrite elem_of_filter in Hsub. lia.
+  Qed.
+End compact_rank.
+
+Lemma evalc_consistent c a : closed c → acyclic c → consistent c (evalc c a).
+Proof.
+  intros Hcl [rank Hr]. unfold evalc.
+  apply (eval_consistent c (crank c rank) (crank_mono c rank Hcl Hr) a (S (size c))); [|done].
+  intros n Hn. pose proof (crank_bound c rank n Hn). lia.
+Qed.
+Lemma evalc_free c a n i : c !! n = Some i → is_free i = true → evalc c a n = a n.
+Proof. intros Hn Hf. unfold evalc. simpl. by rewrite Hn, Hf. Qed.
+(* every consistent valuation that agrees with a on the free nodes is evalc c a on the whole circuit *)
+Lemma evalc_agrees c a v : closed c → acyclic c → consistent c v → agrees (free_nodes c) v a → agrees (dom c) v (evalc c a).
+Proof.
+  intros Hcl Hac Hv Ha. apply evalc_unique; try done. apply consistentb_spec. by apply evalc_consistent.
+Qed.
+Lemma eval_ext fuel c a a' : (∀ x, a x = a' x) → ∀ n, eval fuel c a n = eval fuel c a' n.
+Proof.
+  intros Hf. induction fuel as [|f IH]; intros n; simpl; [done|].
+  destruct (c !! n) as [i|] eqn:Hn; [|done].
+  destruct (is_free i) eqn:Hfr; [done|].
+  assert (∀ t, gate_val t (eval f c a) (n_fi i) = gate_val t (eval f c a') (n_fi i)) as Hg.
+  { intros t. apply gate_val_ext. intros x _. apply IH. }
+  destruct (n_ty i); auto.
+Qed.
+
+
+(* ================================================================================================ *)
+(* 4. per-construction lemmas: single gates                                                          *)
+Lemma node_val T (v : val) name j : consistent T v → T !! name = Some j → is_free j = false →
+  n_ty j ≠ C0 → n_ty j ≠ C1 → v name = gate_val (n_ty j) v (n_fi j).
+Proof.
+  intros Hc Hj Hf H0 H1. specialize (Hc name j Hj). unfold node_ok in Hc. rewrite Hf in Hc.
+  destruct (n_ty j); done.
+Qed.
+Lemma gate_val_singleton t (v : val) x : gate_val t v {[x]} = xorb (g_inv t) (g_op t (v x) (g_unit t)).
+Proof. unfold gate_val. by rewrite elements_singleton. Qed.
+Lemma buf_val (v : val) x : gate_val Buf v {[x]} = v x.
+Proof. rewrite gate_val_singleton. simpl. by destruct (v x). Qed.
+Lemma not_val (v : val) x : gate_val Not v {[x]} = negb (v x).
+Proof. rewrite gate_val_singleton. simpl. by destruct (v x). Qed.
+(* xor-compare lemma *)
+Lemma xor2_val (v : val) a b : a ≠ b → gate_val Xor v {[a; b]} = xorb (v a) (v b).
+Proof.
+  intros Hab.
+  assert (H : gfold Xor (v <$> elements ({[a; b]} : gset string)) = gfold Xor (v <$> [a; b])).
+  { apply gfold_perm, fmap_Permutation. rewrite elements_union_singleton by set_solver. by rewrite elements_singleton. }
+  unfold gfold in H. unfold gate_val. rewrite H. simpl. by destruct (v a), (v b).
+Qed.
+Lemma or_fold l : foldr orb false l = true ↔ ∃ b, b ∈ l ∧ b = true.
+Proof.
+  induction l as [|x l IH]; simpl.
+  - split; [done|]. intros (b & Hb & _). by apply elem_of_nil in Hb.
+  - rewrite orb_true_iff, IH. split.
+    + intros [->|(b & Hb & ->)]; [exists true; split; [left|done]|exists true; split; [by right|done]].
+    + intros (b & [->|Hb]%elem_of_cons & Hbt); [by left|right; eauto].
+Qed.
+Lemma or_val (v : val) (S : gset string) : gate_val Or v S = true ↔ ∃ x, x ∈ S ∧ v x = true.
+Proof.
+  unfold gate_val. change (g_inv Or) with false. change (g_op Or) with orb. change (g_unit Or) with false.
+  rewrite xorb_false_l, or_fold. split.
+  - intros (b & (x & -> & Hx)%elem_of_list_fmap & Hb). exists x. split; [by apply elem_of_elements|done].
+  - intros (x & Hx & Hv). exists true. split; [|done]. apply elem_of_list_fmap. exists x. split; [done|by apply elem_of_elements].
+Qed.
+
+(* flipped-node lemma (closed form of `disconnect fan-in; set_type not; connect y`): the node is the complement of its driver,
+   everything else is constrained as before *)
+Lemma flip_node_consistent (g : circuit) x y o (v : val) :
+  consistent (<[x := mk_node Not o {[y]}]> g) v ↔ consistent (delete x g) v ∧ v x = negb (v y).
+Proof.
+  unfold consistent. split.
+  - intros H. split.
+    + intros n i [Hne Hn]%lookup_delete_Some. apply H. by rewrite lookup_insert_ne.
+    + specialize (H x _ (lookup_insert _ _ _)). unfold node_ok, is_free in H. simpl in H.
+      rewrite bool_decide_eq_false_2 in H by set_solver. rewrite H. apply not_val.
+  - intros [H Hx] n i Hn. destruct (decide (n = x)) as [->|Hne].
+    + rewrite lookup_insert in Hn. injection Hn as <-. unfold node_ok, is_free. simpl.
+      rewrite bool_decide_eq_false_2 by set_solver. rewrite Hx. symmetry. apply not_val.
+    + rewrite lookup_insert_ne in Hn by done. apply H. by apply lookup_delete_Some.
+Qed.
+
+(* ================================================================================================ *)
+(* 5. a prefixed copy of a circuit inside a larger graph                                              *)
+Definition copy_ok (p : string) (T : circuit) (x : string) (i : ninfo) : Prop :=
+  ∃ j, T !! pre p x = Some j ∧ n_ty j = n_ty i ∧ n_fi j = set_map (pre p) (n_fi i).
+Definition tie_ok (T : circuit) (name drv : string) (t : gtype) : Prop :=
+  ∃ j, T !! name = Some j ∧ n_ty j = t ∧ n_fi j = {[drv]}.
+
+Lemma tie_buf T (v : val) name drv : consistent T v → tie_ok T name drv Buf → v name = v drv.
+Proof.
+  intros Hc (j & Hj & Ht & Hfi). rewrite (node_val T v name j Hc Hj); rewrite ?Ht, ?Hfi; try done.
+  - apply buf_val.
+  - unfold is_free. rewrite Ht, Hfi. apply bool_decide_eq_false_2. set_solver.
+Qed.
+Lemma tie_not T (v : val) name drv : consistent T v → tie_ok T name drv Not → v name = negb (v drv).
+Proof.
+  intros Hc (j & Hj & Ht & Hfi). rewrite (node_val T v name j Hc Hj); rewrite ?Ht, ?Hfi; try done.
+  - apply not_val.
+  - unfold is_free. rewrite Ht, Hfi. apply bool_decide_eq_false_2. set_solver.
+Qed.
+
+Lemma copy_node_ok p T (v : val) x i : consistent T v → copy_ok p T x i → is_free i = false → node_ok (v ∘ pre p) x i.
+Proof.
+  intros Hc (j & Hj & Ht & Hfi) Hfree. specialize (Hc _ _ Hj). unfold node_ok in *.
+  assert (Hfj : is_free j = false).
+  { unfold is_free in *. rewrite Ht, Hfi. destruct (n_ty i); try done;
+      rewrite bool_decide_eq_false in Hfree |- *; intros He; apply Hfree; by apply (set_map_empty_iff (pre p)). }
+  rewrite Hfj in Hc. rewrite Hfree. rewrite Ht, Hfi in Hc.
+  destruct (n_ty i); rewrite ?(gate_val_rename (pre p)) in Hc; exact Hc.
+Qed.
+Lemma copy_consistent p T (v : val) c :
+  consistent T v → (∀ x i, c !! x = Some i → is_free i = false → copy_ok p T x i) → consistent c (v ∘ pre p).
+Proof.
+  intros Hc Hcp x i Hx. destruct (is_free i) eqn:Hf.
+  - unfold node_ok. by rewrite Hf.
+  - eapply copy_node_ok; eauto.
+Qed.
+
+
+(* ================================================================================================ *)
+(* 6. the sensitization circuit                                                                      *)
+(* all free nodes are primary inputs (lint-clean, blackbox-free, no 'x') *)
+Definition inputs_only (c : circuit) : Prop := ∀ x i, c !! x = Some i → is_free i = true → n_ty i = Input.
+
+Lemma cut_lookup_ne c n x : x ≠ n → cut c n !! x = c !! x.
+Proof. intros. unfold cut. by rewrite lookup_alter_ne. Qed.
+Lemma cut_lookup c n i : c !! n = Some i → cut c n !! n = Some (mk_node Input (n_out i) ∅).
+Proof. intros H. unfold cut. by rewrite lookup_alter, H. Qed.
+Lemma cut_dom c n : dom (cut c n) = dom c.
+Proof. unfold cut. apply dom_alter_L. Qed.
+Lemma cut_closed c n : closed c → closed (cut c n).
+Proof.
+  intros Hcl x i f Hx Hf. rewrite cut_dom. destruct (decide (x = n)) as [->|Hne].
+  - unfold cut in Hx. rewrite lookup_alter in Hx. destruct (c !! n); simplify_eq/=. set_solver.
+  - rewrite cut_lookup_ne in Hx by done. eapply Hcl; eauto.
+Qed.
+Lemma cut_acyclic c n : acyclic c → acyclic (cut c n).
+Proof.
+  intros [rank Hr]. exists rank. intros x i f Hx Hf. destruct (decide (x = n)) as [->|Hne].
+  - unfold cut in Hx. rewrite lookup_alter in Hx. destruct (c !! n); simplify_eq/=. set_solver.
+  - rewrite cut_lookup_ne in Hx by done. eapply Hr; eauto.
+Qed.
+
+Definition sat_ok (T : circuit) (E : gset string) : Prop :=
+  ∃ j, T !! "sat" = Some j ∧ n_fi j = set_map (pre "dif") E ∧
+       ((n_ty j = Or ∧ E ≠ ∅) ∨ (n_ty j = Buf ∧ ∃ e, E = {[e]}) ∨ (n_ty j = C0 ∧ E = ∅)).
+(* T contains: copy c0 of c, copy c1 of c with c1_n := not c0_n, copy inputs tied to the shared inputs,
+   dif_e = xor(c0_e, c1_e) for the compared endpoints E, sat over the dif nodes *)
+Record sens_shape (c : circuit) (n : string) (E : gset string) (T : circuit) : Prop := {
+  ss_c0 : ∀ x i, c !! x = Some i → is_free i = false → copy_ok "c0" T x i;
+  ss_c1 : ∀ x i, c !! x = Some i → is_free i = false → x ≠ n → copy_ok "c1" T x i;
+  ss_t0 : ∀ s, s ∈ inputs c → tie_ok T (pre "c0" s) s Buf;
+  ss_t1 : ∀ s, s ∈ inputs c → s ≠ n → tie_ok T (pre "c1" s) s Buf;
+  ss_flip : tie_ok T (pre "c1" n) (pre "c0" n) Not;
+  ss_dif : ∀ e, e ∈ E → ∃ j, T !! pre "dif" e = Some j ∧ n_ty j = Xor ∧ n_fi j = {[pre "c0" e; pre "c1" e]};
+  ss_sat : sat_ok T E }.
+
+Lemma free_is_input c x : inputs_only c → x ∈ free_nodes c → x ∈ inputs c.
+Proof.
+  intros Hio Hx. unfold free_nodes in Hx. apply elem_of_dom in Hx as [i Hi].
+  apply map_filter_lookup_Some in Hi as [Hi Hf]. apply elem_of_inputs. exists i. split; [done|]. by eapply Hio.
+Qed.
+
+Section sens.
+  Context (c : circuit) (n : string) (E : gset string) (T : circuit).
+  Hypothesis Hcl : closed c.
+  Hypothesis Hac : acyclic c.
+  Hypothesis Hio : inputs_only c.
+  Hypothesis Hn : n ∈ dom c.
+  Hypothesis HE : E ⊆ dom c.
+  Hypothesis Hsh : sens_shape c n E T.
+  Context (v : val) (Hv : consistent T v).
+
+  (* the first copy carries the values of c under the input valuation v *)
+  Lemma c0_values x : x ∈ dom c → v (pre "c0" x) = evalc c v x.
+  Proof.
+    intros Hx. apply (evalc_agrees c v (v ∘ pre "c0")); try done.
+    - eapply copy_consistent; [done|]. apply Hsh.
+    - intros s Hs. simpl. apply (tie_buf T); [done|]. apply Hsh. by apply free_is_input.
+  Qed.
+  (* the flipped-node lemma in context: the second copy computes c with n inverted *)
+  Lemma c1_values x : x ∈ dom c → v (pre "c1" x) = inverted c n v x.
+  Proof.
+    intros Hx. unfold inverted.
+    apply (evalc_agrees (cut c n) (setv v n (negb (evalc c v n))) (v ∘ pre "c1")).
+    - by apply cut_closed.
+    - by apply cut_acyclic.
+    - intros y i Hy. destruct (decide (y = n)) as [->|Hne].
+      + apply elem_of_dom in Hn as [i0 Hi0]. rewrite (cut_lookup _ _ _ Hi0) in Hy. injection Hy as <-. done.
+      + rewrite cut_lookup_ne in Hy by done. destruct (is_free i) eqn:Hf.
+        * unfold node_ok. by rewrite Hf.
+        * eapply copy_node_ok; [done| |done]. by eapply (ss_c1 _ _ _ _ Hsh).
+    - intros s Hs. unfold setv. simpl. destruct (decide (s = n)) as [->|Hne].
+      + rewrite bool_decide_eq_true_2 by done.
+        rewrite (tie_not T v _ _ Hv (ss_flip _ _ _ _ Hsh)). f_equal. by apply c0_values.
+      + rewrite bool_decide_eq_false_2 by done.
+        apply (tie_buf T); [done|]. apply (ss_t1 _ _ _ _ Hsh); [|done].
+        unfold free_nodes in Hs. apply elem_of_dom in Hs as [i Hi]. apply map_filter_lookup_Some in Hi as [Hi Hf].
+        rewrite cut_lookup_ne in Hi by done. apply elem_of_inputs. exists i. split; [done|]. by eapply Hio.
+    - by rewrite cut_dom.
+  Qed.
+  Lemma dif_values e : e ∈ E → v (pre "dif" e) = xorb (evalc c v e) (inverted c n v e).
+  Proof.
+    intros He. destruct (ss_dif _ _ _ _ Hsh e He) as (j & Hj & Ht & Hfi).
+    rewrite (node_val T v _ j Hv Hj); rewrite ?Ht, ?Hfi; try done.
+    - rewrite xor2_val by (unfold pre; intros [=]).
+      rewrite c0_values, c1_values by (by apply HE). done.
+    - unfold is_free. by rewrite Ht.
+  Qed.
+
+  (* `sat` is 1 exactly when inverting n changes one of the compared endpoints *)
+  Theorem sens_shape_spec : v "sat" = true ↔ sens_at c n (elements E) v.
+  Proof.
+    destruct (ss_sat _ _ _ _ Hsh) as (j & Hj & Hfi & Hty). unfold sens_at.
+    assert (Hdif : (∃ x, x ∈ (set_map (pre "dif") E : gset string) ∧ v x = true) ↔
+                   ∃ e, e ∈ elements E ∧ evalc c v e ≠ inverted c n v e).
+    { split.
+      - intros (x & (e & -> & He)%elem_of_map & Hx). exists e. split; [by apply elem_of_elements|].
+        rewrite dif_values in Hx by done. by destruct (evalc c v e), (inverted c n v e).
+      - intros (e & He%elem_of_elements & Hne). exists (pre "dif" e). split; [apply elem_of_map; eauto|].
+        rewrite dif_values by done. by destruct (evalc c v e), (inverted c n v e). }
+    destruct Hty as [[Ht Hne]|[[Ht [e ->]]|[Ht ->]]].
+    - rewrite (node_val T v _ j Hv Hj); rewrite ?Ht, ?Hfi; try done.
+      + by rewrite or_val.
+      + unfold is_free. by rewrite Ht.
+    - rewrite (node_val T v _ j Hv Hj); rewrite ?Ht, ?Hfi; try done.
+      + rewrite <- Hdif. rewrite set_map_singleton_L, buf_val. split.
+        * intros H. exists (pre "dif" e). split; [set_solver|done].
+        * intros (x & ->%elem_of_singleton & H). done.
+      + unfold is_free. rewrite Ht, Hfi, set_map_singleton_L. apply bool_decide_eq_false_2. set_solver.
+    - pose proof (Hv _ _ Hj) as Hok. unfold node_ok, is_free in Hok. rewrite Ht in Hok. rewrite Hok.
+      split; [done|]. rewrite elements_empty. intros (e & He & _). by apply elem_of_nil in He.
+  Qed.
+End sens.
+
+
+(* ================================================================================================ *)
+(* 7. the sensitivity circuit                                                                        *)
+Lemma flip_other (ρ : val) s x : x ≠ s → flipv ρ s x = ρ x.
+Proof. intros. unfold flipv. by rewrite bool_decide_eq_false_2. Qed.
+Lemma flip_self (ρ : val) s : flipv ρ s s = negb (ρ s).
+Proof. unfold flipv. by rewrite bool_decide_eq_true_2. Qed.
+
+Lemma filter_index_length (P : string → bool) (Q : nat → bool) (sp : list string) k :
+  (∀ i s, sp !! i = Some s → Q (k + i) = P s) →
+  length (filter (λ i, Q i = true) (seq k (length sp))) = length (filter (λ s, P s = true) sp).
+Proof.
+  revert k. induction sp as [|s sp IH]; intros k H; [done|].
+  cbn [length seq]. rewrite !filter_cons.
+  assert (Q k = P s) as Hk by (rewrite <- (H 0 s eq_refl); f_equal; lia).
+  assert (IH' : length (filter (λ i, Q i = true) (seq (S k) (length sp))) = length (filter (λ s, P s = true) sp)).
+  { apply IH. intros i s' Hi. rewrite <- (H (S i) s' Hi). f_equal. lia. }
+  rewrite Hk. destruct (decide (P s = true)); simpl; by rewrite IH'.
+Qed.
+
+(* the popcount sub-circuit counts (C13): the low W output bits are the binary digits of the number of inputs at 1 *)
+Definition popcount_correct (PC : circuit) (m W : nat) : Prop :=
+  ∀ u : val, consistent PC u →
+    (λ o, u ("out_" ++ pretty o)) <$> seq 0 W =
+    take_bits W (length (filter (λ i, u ("in_" ++ pretty i) = true) (seq 0 m))).
+
+(* T contains: the shared copy orig of the cone c of n, one copy inv_<s0> per startpoint with that input inverted,
+   dif_out_<s0> = xor(orig_n, inv_<s0>_n) driving pc_in_<i> in the order of sp, the popcount copy, sen_out buffers *)
+Record sv_shape (c : circuit) (n : string) (sp : list string) (PC : circuit) (W : nat) (T : circuit) : Prop := {
+  sv_orig : ∀ x i, c !! x = Some i → is_free i = false → copy_ok "orig" T x i;
+  sv_torig : ∀ s, s ∈ inputs c → tie_ok T (pre "orig" s) s Buf;
+  sv_inv : ∀ s0 x i, s0 ∈ sp → c !! x = Some i → is_free i = false → copy_ok (pre "inv" s0) T x i;
+  sv_tinv : ∀ s0 s, s0 ∈ sp → s ∈ inputs c → s ≠ s0 → tie_ok T (pre (pre "inv" s0) s) s Buf;
+  sv_flip : ∀ s0, s0 ∈ sp → tie_ok T (pre (pre "inv" s0) s0) s0 Not;
+  sv_dif : ∀ s0, s0 ∈ sp → ∃ j, T !! pre "dif_out" s0 = Some j ∧ n_ty j = Xor ∧ n_fi j = {[pre "orig" n; pre (pre "inv" s0) n]};
+  sv_pc : ∀ x i, PC !! x = Some i → is_free i = false → copy_ok "pc" T x i;
+  sv_pcin : ∀ i s0, sp !! i = Some s0 → tie_ok T ("pc_in_" ++ pretty i) (pre "dif_out" s0) Buf;
+  sv_out : ∀ o, o < W → tie_ok T ("sen_out_" ++ pretty o) ("pc_out_" ++ pretty o) Buf }.
+
+Section sv.
+  Context (c : circuit) (n : string) (sp : list string) (PC : circuit) (W : nat) (T : circuit).
+  Hypothesis Hcl : closed c.
+  Hypothesis Hac : acyclic c.
+  Hypothesis Hio : inputs_only c.
+  Hypothesis Hn : n ∈ dom c.
+  Hypothesis Hsh : sv_shape c n sp PC W T.
+  Context (v : val) (Hv : consistent T v).
+
+  Lemma orig_values x : x ∈ dom c → v (pre "orig" x) = evalc c v x.
+  Proof.
+    intros Hx. apply (evalc_agrees c v (v ∘ pre "orig")); try done.
+    - eapply copy_consistent; [done|]. apply Hsh.
+    - intros s Hs. simpl. apply (tie_buf T); [done|]. apply Hsh. by apply free_is_input.
+  Qed.
+  Lemma inv_values s0 x : s0 ∈ sp → x ∈ dom c → v (pre (pre "inv" s0) x) = evalc c (flipv v s0) x.
+  Proof.
+    intros Hs0 Hx. apply (evalc_agrees c (flipv v s0) (v ∘ pre (pre "inv" s0))); try done.
+    - eapply copy_consistent; [done|]. intros. by eapply (sv_inv _ _ _ _ _ _ Hsh).
+    - intros s Hs. simpl. destruct (decide (s = s0)) as [->|Hne].
+      + rewrite flip_self. apply (tie_not T); [done|]. by apply Hsh.
+      + rewrite flip_other by done. apply (tie_buf T); [done|]. apply Hsh; [done| |done]. by apply free_is_input.
+  Qed.
+  (* dif_out_s is 1 exactly when flipping startpoint s flips n *)
+  Theorem dif_out_spec s0 : s0 ∈ sp → v (pre "dif_out" s0) = flipsb c n s0 v.
+  Proof.
+    intros Hs0. destruct (sv_dif _ _ _ _ _ _ Hsh s0 Hs0) as (j & Hj & Ht & Hfi).
+    rewrite (node_val T v _ j Hv Hj); rewrite ?Ht, ?Hfi; try done.
+    - rewrite xor2_val by (unfold pre; intros [=]). rewrite orig_values, inv_values by done. done.
+    - unfold is_free. by rewrite Ht.
+  Qed.
+
+  (* the sen_out bits are the binary digits of the count, given a correct popcount *)
+  Hypothesis Hpc : popcount_correct PC (length sp) W.
+  Theorem sen_out_spec : sen_bits v W = take_bits W (count c n sp v).
+  Proof.
+    assert (Hu : consistent PC (v ∘ pre "pc")) by (eapply copy_consistent; [done|]; apply Hsh).
+    specialize (Hpc _ Hu). unfold sen_bits.
+    transitivity ((λ o, (v ∘ pre "pc") ("out_" ++ pretty o)) <$> seq 0 W).
+    - apply list_fmap_ext. intros k o Ho. apply lookup_seq in Ho as [-> Hlt]. simpl.
+      apply (tie_buf T v _ _ Hv (sv_out _ _ _ _ _ _ Hsh _ Hlt)).
+    - rewrite Hpc. f_equal. unfold count.
+      apply (filter_index_length (λ s, flipsb c n s v) (λ i, (v ∘ pre "pc") ("in_" ++ pretty i)) sp 0).
+      intros i s0 Hi. change ((v ∘ pre "pc") ("in_" ++ pretty (0 + i))) with (v ("pc_in_" ++ pretty i)).
+      rewrite (tie_buf T v _ _ Hv (sv_pcin _ _ _ _ _ _ Hsh _ _ Hi)).
+      apply dif_out_spec. by eapply elem_of_list_lookup_2.
+  Qed.
+End sv.
